@@ -446,7 +446,7 @@ func init() {
 				cf := filepath.Join(dir, "case.json")
 				b, _ := json.Marshal(c)
 				os.WriteFile(cf, b, 0644)
-				ctx, cancel := context.WithTimeout(context.Background(), 10*time.Second)
+				ctx, cancel := context.WithTimeout(context.Background(), 30*time.Second) // generous: a loaded machine must not look like a hang
 				defer cancel()
 				args := []string{"-lane", "robust-child", "-replay", cf, "-work", dir, "-out", filepath.Join(dir, "out.json")}
 				if dropsUid(c.Kind) {
@@ -522,9 +522,9 @@ func init() {
 					return
 				}
 				if ctx.Err() != nil {
-					what = "did not return within 10 s"
+					what = "did not return within 30 s"
 					if c.Kind == "unpack-unwritable" {
-						what = fmt.Sprintf("as uid %d (%s: the file cannot be created and chmod of the file does not cure it) did not return within 10 s; it must return a permission error", c.Uid, c.Shape)
+						what = fmt.Sprintf("as uid %d (%s: the file cannot be created and chmod of the file does not cure it) did not return within 30 s; it must return a permission error", c.Uid, c.Shape)
 					}
 					rep.Count("outcome:timeout")
 				} else {
